@@ -24,6 +24,7 @@ MALFORMED = ["nosig", "sigchar_nonhex", "expchar_nonhex", "sig_short", "sig_long
 LOCPERTS = ["none", "hash", "exp_future", "exp_past", "expchar_future", "expchar_past", "expcase", "sigchar",
             "sigcase"] + MALFORMED
 VERPERTS = ["none", "token", "ttl", "key"]
+LENONLY = ["sig_short", "sig_long", "exp_short", "exp_long"]
 
 
 def predicted(wf, same, rel):
@@ -66,7 +67,8 @@ def run(ctx):
             if cs["kind"] == "verify":
                 scns.append({"id": nid, "kind": "verify", "mode": "gen", "ploc": cs["ploc"], "pver": cs["pver"],
                              "erel": cs["erel"], "size": cs["size"], "before": cs["before"], "after": cs["after"],
-                             "present": cs["present"], "wf": c["wf"], "same": c["same"], "cseed": k})
+                             "present": cs["present"], "wf": c["wf"], "same": c["same"],
+                             "lenonly": cs["ploc"] in LENONLY, "cseed": k})
             else:
                 scns.append({"id": nid, "kind": "manifest", "mode": "gen", "wf": True, "same": True, "cseed": k,
                              "oddws": False, "expect_out": c["expect_out"],
@@ -90,7 +92,8 @@ def run(ctx):
         scns.append({"id": nid, "kind": "verify", "mode": "random", "ploc": pl, "pver": pv,
                      "erel": rnd.choice(["past", "near", "future", "future"]), "size": rnd.random() < 0.8,
                      "before": rnd.randint(0, 4), "after": rnd.randint(0, 4), "present": rnd.random() < 0.7,
-                     "wf": pl not in MALFORMED, "same": pl == "none" and pv == "none", "cseed": i})
+                     "wf": pl not in MALFORMED, "same": pl == "none" and pv == "none",
+                     "lenonly": pl in LENONLY, "cseed": i})
     by_id = {s["id"]: s for s in scns}
     # RUN 1: sdk/go/arvados
     ov = ctx.harness_overlay("sdk/go/arvados", "harness/C07_arvados")
@@ -107,7 +110,7 @@ def run(ctx):
         s = by_id[h["scn"]]
         ks.append({"id": h["scn"], "loc": h["loc"], "vtoken": h["vtoken"], "vkey_hex": h["vkey_hex"],
                    "vttl": h["vttl"], "eprime": h["eprime"], "phash": h["phash"], "pdata_hex": h["pdata_hex"],
-                   "present": s["present"], "wf": s["wf"], "same": s["same"]})
+                   "present": s["present"], "wf": s["wf"], "same": s["same"], "lenonly": s["lenonly"]})
     ov2 = ctx.harness_overlay("services/keepstore", "harness/C07_keepstore")
     ev2, out2 = ctx.go_run_driver("services/keepstore", ov2, "TestVerifC07KS$", ks, timeout=1500)
     tr2 = vlib.split_traces(ev2)
